@@ -47,7 +47,7 @@ fn any_status_valid() -> PushPullState {
 // ===========================================================================
 // C17: injectivity of the real lookup functions over their complete finite domains
 // ===========================================================================
-// @obl props=C17,C08 tier=quick kind=lemma mem=3 est=60
+// @obl props=C06,C08,C11,C17 tier=quick kind=lemma mem=3 est=60
 // @fns piece_value
 // @clause forall (i,p,g) != (i',p',g') in 64 x 6 x 2: piece_value(i,p,g) != 0 and piece_value(i,p,g) != piece_value(i',p',g')  (so adding, removing, replacing or relocating one piece changes the hash)
 #[kani::proof]
@@ -72,7 +72,7 @@ fn c17_status_values_distinct() {
     assert!(pp_value(PushPullState::None) == 0);
     assert!(s == t || pp_value(s) != pp_value(t), "C17: push/pull status values are pairwise distinct");
 }
-// @obl props=C17,C08 tier=quick kind=lemma mem=2 est=5
+// @obl props=C06,C08,C11,C17 tier=quick kind=lemma mem=2 est=5
 // @fns step_value
 // @clause PLAYER_TO_MOVE != 0; STEP_VALUES pairwise distinct; step_value(a,b) == STEP[a]^STEP[b] != 0 for a != b
 #[kani::proof]
@@ -89,7 +89,7 @@ fn c17_side_and_step_values() {
 // ===========================================================================
 // C08: the incremental updates, as XOR algebra over the table values
 // ===========================================================================
-// @obl props=C08,C05,C06,C09,C19 tier=quick kind=harness-contract mem=3 est=20
+// @obl props=C05,C06,C08,C09,C11,C19 tier=quick kind=harness-contract mem=3 est=20
 // @fns Zobrist::initial Zobrist::pass Zobrist::exclude_step Zobrist::place_piece Zobrist::board_state_hash piece_value
 // @clause forall h, step<4, (sq,p,g), flags: initial()==INITIAL; pass(step)==h^PLAYER_TO_MOVE^STEP[0]^STEP[step]; exclude_step(step)==h^STEP[0]^STEP[step]; place_piece == h ^ piece_value(sq,p,g) ^ (PTM if a switch) ^ (STEP[0] if phase switch); piece_value(sq,p,g) == SQUARE_VALUES[type index (E,M,H,D,C,R) + 6*silver][sq]
 #[kani::proof]
